@@ -101,9 +101,15 @@ Definition eps_with_bounds (eps : Q) (cm : nat) (vals : list row) (t0 t1 : optio
 Definition find_eps (eps : Q) (cm : nat) (vals : list row) (t0 t1 : option Q) : Q :=
   match t0, t1 with None, None => eps_no_bounds eps cm vals | _, _ => eps_with_bounds eps cm vals t0 t1 end.
 
-(* _create_epsilon_constraint_failures *)
+(* _create_epsilon_constraint_failures.  `successful_points = values[~failures]`; when that matrix is empty (every
+   observation a reported failure, or no observation) there is no frontier to place the threshold on and the routine
+   returns numpy.zeros_like(failures): nothing is labelled by the threshold (the mask has one entry per row - NumPy
+   refuses a boolean index of another length - so that array has the length of `vals`). *)
+Definition no_success (vals : list row) (fails : list bool) : bool :=
+  match select (map negb fails) vals with [] => true | _ => false end.
 Definition eps_failures (eps : Q) (cm : nat) (vals : list row) (fails : list bool) : list bool :=
   let succ := select (map negb fails) vals in
+  if no_success vals fails then map (fun _ => false) vals else
   let thr := eps_no_bounds eps cm succ in
   map (fun r => Qle_bool thr (nth cm r 0)) vals.
 
